@@ -8,7 +8,14 @@
 // found in the LICENSE file. See the AUTHORS file for names of contributors.
 
 use std::sync::Arc;
+#[cfg(not(loom))]
 use std::sync::atomic::{AtomicPtr, Ordering};
+
+#[cfg(loom)]
+use loom::sync::atomic::{AtomicPtr, Ordering};
+
+#[cfg(rescrv_blue_verif)]
+pub mod verif;
 
 use rand::Rng;
 
@@ -67,6 +74,8 @@ mod node_ptr {
     fn deref<'a, K, V, const MAX_HEIGHT: usize>(
         ptr: *mut Node<K, V, MAX_HEIGHT>,
     ) -> &'a Node<K, V, MAX_HEIGHT> {
+        #[cfg(rescrv_blue_verif)]
+        super::verif::assert_live(ptr as usize);
         unsafe { &*ptr }
     }
 
@@ -161,10 +170,22 @@ impl<K: Eq + Ord + Default, V: Default, const MAX_HEIGHT: usize> SkipList<K, V, 
     fn new_node(key: K, value: V, height: usize) -> *mut Node<K, V, MAX_HEIGHT> {
         assert!(height > 0);
         assert!(height <= MAX_HEIGHT);
+        #[cfg(rescrv_blue_verif)]
+        {
+            let ptr: *mut Node<K, V, MAX_HEIGHT> =
+                Box::leak(Box::new(Node::new(key, value, height)));
+            verif::on_alloc(ptr as usize);
+            return ptr;
+        }
+        #[allow(unreachable_code)]
         Box::leak(Box::new(Node::new(key, value, height)))
     }
 
     fn random_height() -> usize {
+        #[cfg(rescrv_blue_verif)]
+        if let Some(height) = verif::scripted_height() {
+            return height.clamp(1, MAX_HEIGHT);
+        }
         const BRANCHING: u8 = 4;
         let mut height = 1usize;
         let mut rng = rand::thread_rng();
@@ -291,6 +312,10 @@ impl<K, V, const MAX_HEIGHT: usize> Drop for SkipList<K, V, MAX_HEIGHT> {
         while !ptr.is_null() {
             let to_drop = ptr;
             ptr = node_ptr::get_next(ptr, 0);
+            #[cfg(rescrv_blue_verif)]
+            if verif::quarantine(to_drop as usize) {
+                continue;
+            }
             drop(unsafe { Box::from_raw(to_drop) });
         }
     }
